@@ -533,8 +533,6 @@ func edgeSweep(t *testing.T, rec *ev.Rec) {
 	add("child/top/array/div0", edgeP{Form: "arr", DepthMode: "shallow", Depth: 1, Wide: "array", Fail: "div0", FailIn: true, Place: "try-bottom", Via: "top", Inv: "callAcq"})
 	add("child/bottom/args/gopanic", edgeP{Form: "arr", DepthMode: "shallow", Depth: 1, Wide: "args", Fail: "gopanic", FailIn: true, GoKind: "index", Place: "plain", Via: "bottom", Inv: "call"})
 
-	nsh := int(ev.Seed()) // rotate which part of the shapes a shard sweeps first (all are swept)
-	_ = nsh
 	crossed, notCrossed := 0, 0
 	for _, sh := range shapes {
 		seen := map[string]bool{}
